@@ -361,9 +361,9 @@ pub fn judge_run_case(ctx: &mut Ctx, suite: &str, cs: u64, case: &Case, src: &st
                 verdicts.push(oracle_c13(case, &run.lines, &run.script));
             }
         }
-        "C02" => verdicts.push(oracle_c02(case, &run.lines)),
+        "C02" => verdicts.push(oracle_c02(case, &run.post_lines)),
         "C03" => verdicts.push(oracle_c03(case, &run.lines, &run.script, &declared)),
-        "C06" => verdicts.push(oracle_c06(case, &run.lines, &declared)),
+        "C06" => verdicts.push(oracle_c06(case, &run.post_lines, &declared)),
         "C10" => verdicts.push(oracle_no_panic(&run.lines)),
         "C13" => {
             verdicts.push(oracle_c13(case, &run.lines, &run.script));
